@@ -150,7 +150,7 @@ struct qmail *qq;
     case 81: return "Zqq internal bug (#4.3.0)";
     case 120: return "Zunable to exec qq (#4.3.0)";
     default:
-      if (exitcode == 82 && errlen > 2)
+      if (exitcode == 82 && errlen > 2 && (errstr[0] == 'D' || errstr[0] == 'Z'))
         return errstr;
       if ((exitcode >= 11) && (exitcode <= 40))
 	return "Dqq permanent problem (#5.3.0)";
